@@ -54,22 +54,22 @@ func NewUniverse() *Universe {
 	u.sortSeen["Str"] = true
 	u.sortDecls = append(u.sortDecls, "(declare-datatypes ((Iface 0)) (((mk_Iface (itag Int) (ipay Int)))))")
 	u.sortSeen["Iface"] = true
-	u.declFun("str.len", "(Str) Int")
-	u.declFun("str.at", "(Str Int) Int")
-	u.declFun("str.cat", "(Str Str) Str")
-	u.declFun("str.lt", "(Str Str) Bool")
-	u.declFun("str.sub", "(Str Int Int) Str") // s[a:b]
-	u.declFun("str.emptystr", "() Str")
+	u.declFun("s.len", "(Str) Int")
+	u.declFun("s.at", "(Str Int) Int")
+	u.declFun("s.cat", "(Str Str) Str")
+	u.declFun("s.lt", "(Str Str) Bool")
+	u.declFun("s.sub", "(Str Int Int) Str") // s[a:b]
+	u.declFun("s.empty", "() Str")
 	u.axioms = append(u.axioms,
-		"(forall ((s Str)) (! (>= (str.len s) 0) :pattern ((str.len s))))",
-		"(= (str.len str.emptystr) 0)",
-		"(forall ((s Str)) (! (=> (= (str.len s) 0) (= s str.emptystr)) :pattern ((str.len s))))",
-		"(forall ((s Str) (i Int)) (! (and (<= 0 (str.at s i)) (<= (str.at s i) 255)) :pattern ((str.at s i))))",
-		"(forall ((a Str) (b Str)) (! (= (str.len (str.cat a b)) (+ (str.len a) (str.len b))) :pattern ((str.cat a b))))",
-		"(forall ((a Str)) (! (= (str.cat a str.emptystr) a) :pattern ((str.cat a str.emptystr))))",
-		"(forall ((a Str)) (! (= (str.cat str.emptystr a) a) :pattern ((str.cat str.emptystr a))))",
+		"(forall ((s Str)) (! (>= (s.len s) 0) :pattern ((s.len s))))",
+		"(= (s.len s.empty) 0)",
+		"(forall ((s Str)) (! (=> (= (s.len s) 0) (= s s.empty)) :pattern ((s.len s))))",
+		"(forall ((s Str) (i Int)) (! (and (<= 0 (s.at s i)) (<= (s.at s i) 255)) :pattern ((s.at s i))))",
+		"(forall ((a Str) (b Str)) (! (= (s.len (s.cat a b)) (+ (s.len a) (s.len b))) :pattern ((s.cat a b))))",
+		"(forall ((a Str)) (! (= (s.cat a s.empty) a) :pattern ((s.cat a s.empty))))",
+		"(forall ((a Str)) (! (= (s.cat s.empty a) a) :pattern ((s.cat s.empty a))))",
 	)
-	u.lits[""] = "str.emptystr"
+	u.lits[""] = "s.empty"
 	return u
 }
 
@@ -130,9 +130,9 @@ func (u *Universe) litDecls(text string) (decls, axioms []string) {
 			continue
 		}
 		decls = append(decls, fmt.Sprintf("(declare-fun %s () Str)", name))
-		axioms = append(axioms, fmt.Sprintf("(= (str.len %s) %d)", name, len(v)))
+		axioms = append(axioms, fmt.Sprintf("(= (s.len %s) %d)", name, len(v)))
 		for i := 0; i < len(v); i++ {
-			axioms = append(axioms, fmt.Sprintf("(= (str.at %s %d) %d)", name, i, v[i]))
+			axioms = append(axioms, fmt.Sprintf("(= (s.at %s %d) %d)", name, i, v[i]))
 		}
 	}
 	return
